@@ -114,14 +114,20 @@ def runRedef (fl : Flags) (b : Block) : Res :=
               some s!"all_parameters_permitted_but_{noSpace (showImplRedef rdres)}"
             else none
     let p09 : Option String := if rdexecs = 0 then none else some s!"redefine_executed_{rdexecs}_user_function_bodies"
+    -- C11: a run-once function's body must not run during planning (its first real use would be its second run)
+    let p11 : Option String := if rdexecs > 0 ∧ sc.fns.any (fun f => f.desc.once) then
+      some s!"redefine_executed_{rdexecs}_function_bodies_in_a_scenario_with_run-once_converters" else none
+    -- C16: defaults given at construction count for Redefine as they do for Call
+    let p16 : Option String := if sc.defaults > 0 ∧ showRedef o ≠ showImplRedef rdres then
+      some s!"with_default_options_redefine_model=[{noSpace (showRedef o)}]_impl=[{noSpace (showImplRedef rdres)}]" else none
     let p06 : Option String := if rdres.head? = some "panic" ∨ rdres.head? = some "crash" then some s!"redefine_{noSpace (showImplRedef rdres)}" else none
-    (c1.or c2, p08, p09, p06, rdres))
+    (c1.or c2, p08, p09, p06.or none, rdres, p11, p16))
   let conform := giC.or (cd.or (per.findSome? (fun p => p.1)))
-  let v := fun (f : (Option String × Option String × Option String × Option String × List String) → Option String) =>
+  let v := fun (f : (Option String × Option String × Option String × Option String × List String × Option String × Option String) → Option String) =>
     verdictStr (per.findSome? f)
-  let cls := ((per.headD (none, none, none, none, [])).2.2.2.2).headD "none"
+  let cls := ((per.headD (none, none, none, none, [], none, none)).2.2.2.2.1).headD "none"
   { conform := conform, propNA := true,
-    props := [("C08", v (·.2.1)), ("C09", v (·.2.2.1)), ("C06", v (·.2.2.2.1))],
+    props := [("C08", v (·.2.1)), ("C09", v (·.2.2.1)), ("C06", v (·.2.2.2.1)), ("C11", v (·.2.2.2.2.2.1)), ("C16", v (·.2.2.2.2.2.2))],
     stats := [s!"outcome={cls}", s!"convs={bld.convs.length}", s!"execs=1", s!"runs={per.length}", genStat] }
 
 end ArgMapper.Driver
@@ -137,8 +143,12 @@ def runProbe (b : Block) : Res :=
   let bare := ((field b "bare").getD []).headD "skip"
   let ps := if sib = "disturbed" ∨ sib = "panic" then some s!"call_or_redefine_on_the_target_{sib}_a_function_sharing_its_default_option_array" else none
   let pb := if bare.startsWith "changed" ∨ bare = "panic" then some s!"option-less_Call_after_option-less_Redefine_{noSpace bare}" else none
+  -- one value set as input and output of a built function: the callback's view is what the caller gave, and what
+  -- it leaves there is what the caller gets (C15)
+  let pt := ((field b "passthru").getD []).headD "skip"
+  let pp := if pt = "changed" ∨ pt = "panic" then some s!"built_function_over_one_shared_value_set_{pt}_the_values_passed_through" else none
   { conform := none, propNA := true,
-    props := [("C02", verdictStr ps), ("C03", verdictStr ps), ("C05", verdictStr ps), ("C16", verdictStr ps), ("C09", verdictStr (ps.or pb)), ("C06", verdictStr (if bare = "panic" ∨ sib = "panic" then some "probe_panicked" else none))],
+    props := [("C02", verdictStr ps), ("C03", verdictStr ps), ("C05", verdictStr ps), ("C16", verdictStr ps), ("C15", verdictStr pp), ("C09", verdictStr (ps.or pb)), ("C06", verdictStr (if bare = "panic" ∨ sib = "panic" then some "probe_panicked" else none))],
     stats := ["execs=1", "outcome=ok", "size=1"] }
 
 /-- `alias` blocks: after calling a redefined function, is the caller's option slice (spare capacity
